@@ -65,6 +65,14 @@ CLAIMED = {
          'Static error-discipline rules over reflect/*.hpp and the expansions of all reflection macro families (driver witness structs): a conversion_result/read_result/expected is dereferenced only under a dominating success test; every j[k] on a Json parameter is under a comparison with j.size() (locally or at every caller of its helper); decode_traits<std::array<T,N>> compares the count with N and requires end_array. Quantifies over all conversion sites, i.e. every malformed shape reaching them.',
          'Decides the listed error-discipline and arity clauses; does not decide inverse-ness or route equality of values.',
          'DESIGN.md §4 C17'),
+ 'C12': ('pairing rule over selector call sites (path node generated from the index/name that fetches the value); call-graph identity of json_query with compile+evaluate; clamped slice steps',
+         'Static pairing rule: at every tail_select/evaluate_tail call of every selector the path node is generated from the same index or name that fetches the child passed with it; json_query/json_replace go through make_expression + evaluate; slice loops clamp the step. Necessary conditions of "each returned path addresses the value returned with it" and of compiled/one-shot agreement, at all selector sites.',
+         'Decides the listed structural clauses; does not decide that the selected node list is the one the selector semantics define.',
+         'DESIGN.md §4 C12'),
+ 'C13': ('registry table extraction (name -> object -> class -> arity) compared with the specification table; argument typestate over the CFG; dominance of the step-zero test; type-level const facts from Sema',
+         'Static table agreement and typestate: the 26 built-in names, their classes and arities equal the JMESPath table; args[k] is read only below the declared arity and after the arity test, value()/expression() only under the matching kind test; step 0 is rejected before the slice loops; every entry point takes const Json& and every evaluate returns const Json&.',
+         'Decides the listed structural clauses; does not decide the values returned (projection scoping, truthiness, function results).',
+         'DESIGN.md §4 C13'),
 }
 NOT_YET = 'check under construction in this session; no structural rule registered yet'
 NA = {}
